@@ -132,7 +132,14 @@ def _slice_inner(slize: Slice) -> SliceInner:
 
 
 def _get_inner(slice: Slice) -> SliceInner:
-    """Get a slice's `SliceInner`, calculating it inline if necessary"""
-    if slice._inner is None:
+    """Get a slice's `SliceInner`, calculating it inline if necessary.
+    The result is kept for as long as the parent - and the parent's width - remain those it was calculated for.
+    (Signal widths can be edited, and references are replaced by what they resolve to during elaboration.)"""
+
+    from .elab.helpers.width import width as width_of
+
+    key = (id(slice.parent), width_of(slice.parent))
+    if slice._inner is None or getattr(slice, "_inner_key", None) != key:
         slice._inner = _slice_inner(slice)
+        slice._inner_key = key
     return slice._inner
